@@ -78,6 +78,20 @@ def run(tier, seed):
                     oracle.append({'adapter': which, 'value': v, 'serialised_to': wire, 'why': 'serialised form is not the documented wire form (no matching deserialisation case)'})
             elif r != want:
                 oracle.append({'adapter': which, 'value': v, 'serialised_to': wire, 'deserialised_to': r, 'expected': want})
+    # ---- emission part: serde.rs / `mod serde;` versus the fields that reference crate::serde::*
+    emit_stats = None
+    if har_ok and drv_ok:
+        from . import emitprops
+        from .fsprops import build_cli
+        build_cli()
+        et, en, ef, es, ed, efind, eq = emitprops.emit_run(tier, seed, d)
+        emit_stats = dict(evaluations=et, distinct_nontrivial=en, files_compared_equal=eq, disagreements=len(ed))
+        for cid, p, cls, msg, spec in efind:
+            if p == 'C19':
+                oracle.append({'level': 'emitted crate', 'case': cid, 'message': msg, 'config_and_spec': spec})
+        for x in ed:
+            if x and ('serde' in str(x.get('file', '')) or x.get('file') in ('src/lib.rs',)):
+                disagreements.append(dict(x, level='emitted crate'))
     if oracle:
         out.violation('oracle', {'what': 'adapter template (compiled verbatim from codegen_rust/src/serde/*.rs, driven through serde_json) breaks round trip or turns a malformed wire value into a present value',
                                  'count': len(oracle), 'failures': oracle[:10]})
@@ -94,7 +108,7 @@ def run(tier, seed):
                             + [f'{n}: {a}' for n, a in ps['theorems']],
                evaluations=total, distinct_nontrivial=len(nontriv),
                rule='values: i64 boundaries, powers of ten +-1, random i64 of every bit width, None; dates: month starts/middles/ends of 14 landmark years + 10k random (thorough: every date 0001-01-01..9999-12-31); wire forms: null, bool, floats, -0, integers up to u64::MAX and beyond, 26 strings (signs, spaces, leading zeros, overflow, non-ASCII digits), invalid calendar days, years that wrap i32; non-trivial = not 0/none/null',
-               samples=samples, disagreements_checked=len([x for x in disagreements if x]), oracle_failures=len(oracle), proof_problems=ps['problems'])
+               samples=samples, disagreements_checked=len([x for x in disagreements if x]), oracle_failures=len(oracle), proof_problems=ps['problems'], emission_level=emit_stats)
     write_evidence('C19', tier, seed, 'proof', cov, time.time() - t0, len(out.violations),
                    assumptions=['adapters are compiled from the template files in /repo as they are now (include!)'])
     return out.finish()
